@@ -94,6 +94,24 @@ def correspondence(ctx):
         GC.simple_layout(s, blocks)
         s.meta = {"coinbase-sig-len": len(sig)}
         scns.append(s)
+    # blocks holding a single transaction stored in the segwit serialisation (marker, flag, witness): its size figure is the
+    # witness-stripped one, not what the block's length prefix suggests
+    for k in range(ctx.n(4, 20)):
+        coin = ["bitcoin", "litecoin", "testnet3", "dogecoin"][k % 4]
+        blocks = []
+        for h in range(4):
+            cbt = K.Tx([(b"\0" * 32, 0xffffffff, bytes([3, h, 1, 1]), 0xffffffff)], [(GC.subsidy(h), GC.spk(r, coin, "p2pkh")), (0, b"\x6a\x24\xaa\x21\xa9\xed" + GC.rb(r, 32))])
+            if h in (1, 3) or k % 2:
+                cbt.segwit = (1, 1, [[GC.rb(r, 32)] + ([GC.rb(r, r.choice([100, 3000]))] if h == 3 else [])])
+            txs = [cbt]
+            if h == 2 and k % 2 == 0:
+                txs.append(K.Tx([(GC.rb(r, 32), 0, GC.rb(r, 90), 1)], [(5, GC.spk(r, coin, "p2pkh"))]))
+            blocks.append(K.Block(txs, time=1000 + 600 * h))
+        GH.link(blocks)
+        s = K.Scenario(coin=coin, callback="simplestats")
+        GC.simple_layout(s, blocks)
+        s.meta = {"lone-segwit-coinbase": k}
+        scns.append(s)
     # ties for both maxima: identical-value / identical-size txs in different blocks
     for k in range(ctx.n(6, 40)):
         out = (12345, GC.spk(r, "bitcoin", "p2pkh"))
